@@ -1,6 +1,8 @@
-From SV Require Import Alloc.AllocStep World.WorldSpec Props.C01.
+From SV Require Import Alloc.LifeProps Alloc.AllocRefine World.WorldSpec World.Simulation World.Micro.
+From SV Require Import Props.C01.
 Check (C01_handles_unique : forall tr, saccept s_init tr 0 = None -> NoDup (all_returned tr)).
 Check (C01_one_per_index : forall s e1 e2,
   l_is_alive s e1 = true -> l_is_alive s e2 = true -> fst e1 = fst e2 -> e1 = e2).
-Check (C01_faithful_refines_spec : forall os, saccept s_init (combine os (snd (wrun true w_init os))) 0 = None).
+Check (C01_faithful_refines_spec : forall os,
+  saccept s_init (combine os (snd (wrun true w_init os))) 0 = None).
 Check (C01_faithful_never_stuck : forall os, w_alloc_stuck (fst (wrun true w_init os)) = false).
